@@ -9,6 +9,7 @@ import (
 	"go/token"
 	"go/types"
 	"math/big"
+	"os"
 	"strconv"
 	"strings"
 
@@ -788,6 +789,12 @@ func (c *EvalCtx) call(e *ast.CallExpr) tv {
 			c.errf("len of %s", t.Sort)
 		case "cap":
 			return tv{p.Acc(c.asTerm(c.eval(e.Args[0])), 3), nil}
+		case "upd":
+			// upd(m, i, v): the map / array m with position i set to v
+			m := c.asTerm(c.eval(e.Args[0]))
+			i := c.asTerm(c.eval(e.Args[1]))
+			v := c.asTerm(c.eval(e.Args[2]))
+			return tv{p.Store(m, i, v), nil}
 		case "hashOf":
 			a := c.asTerm(c.eval(e.Args[0]))
 			g := p.Func("hashOf", []*Sort{p.ArraySort(IntSort, IntSort)}, ex.tm.HashS)
@@ -1028,9 +1035,20 @@ func (c *EvalCtx) quant(kind string, e *ast.CallExpr) tv {
 	}
 	switch len(e.Args) {
 	case 4:
-		bv := p.BoundVar(id.Name, IntSort)
 		lo := c.asTerm(c.eval(e.Args[1]))
 		hi := c.asTerm(c.eval(e.Args[2]))
+		if os.Getenv("GOVC_NOEXPAND") == "" && lo.Op == "int" && hi.Op == "int" && lo.Int.IsInt64() && hi.Int.IsInt64() && hi.Int.Int64()-lo.Int.Int64() <= 64 {
+			// literal range: expand into the finite conjunction / disjunction (ground, no quantifier)
+			var parts []*Term
+			for i := lo.Int.Int64(); i < hi.Int.Int64(); i++ {
+				parts = append(parts, c.asTerm(c.bind(id.Name, tv{p.Int(i), nil}).eval(e.Args[3])))
+			}
+			if kind == "forall" {
+				return tv{p.And(parts...), types.Typ[types.Bool]}
+			}
+			return tv{p.Or(parts...), types.Typ[types.Bool]}
+		}
+		bv := p.BoundVar(id.Name, IntSort)
 		body := c.asTerm(c.bind(id.Name, tv{bv, nil}).eval(e.Args[3]))
 		rng := p.And(p.Le(lo, bv), p.Lt(bv, hi))
 		if kind == "forall" {
